@@ -498,6 +498,45 @@ def r9_wiring(rep, g, facts):
     rep.check(R, 'time_offset|minutes', okv, detail, f'offset is not sign * (hours * 60 + minutes): {detail}', loc)
 
 
+def r10_visitor_identity(rep, facts):
+    R = rep.rule('C02/R10', 'the visitor that builds toml::Value from a deserializer stores every scalar it is handed unchanged: floats bit for bit (sign of zero and of '
+                 'NaN included), integers and booleans as given.  Decided by evaluating the visit_* methods on representative values', floor=3)
+    from .den import FloatInterp, FxInterp as _Fx, FLOAT_REPS, EvalPanic, Evaluator, Unanalysable
+
+    class FloatFx(FloatInterp, _Fx):
+        """float evaluation with assignments (`value = value.copysign(1.0)`)"""
+    import math
+    import struct
+    pre = "<<toml::value::Value as serde::de::Deserialize<'de>>::deserialize::ValueVisitor as serde::de::Visitor<'de>>::"
+    bits = lambda x: struct.pack('>d', x)
+    for meth, variant, samples in (('visit_f64', 'Float', list(FLOAT_REPS.items())), ('visit_i64', 'Integer', [(str(v), v) for v in (-2 ** 63, -1, 0, 1, 2 ** 63 - 1)]),
+                                   ('visit_bool', 'Boolean', [('true', True), ('false', False)])):
+        d = pre + meth
+        if not facts.has_body(d):
+            rep.incomplete(R, meth, f'`{d}` not found')
+            continue
+        b = facts.body(d)
+        bad = []
+        try:
+            for name, v in samples:
+                it = FloatFx(Evaluator(facts))
+                try:
+                    r = it.apply_fn(b, [('self',), v])
+                except EvalPanic as ex:
+                    bad.append(f'{name}: panics ({ex})')
+                    continue
+                got = r[2][0] if isinstance(r, tuple) and r[:2] == ('ctor', 'core::result::Result::Ok') and len(r) == 3 else None
+                inner = got[2][0] if isinstance(got, tuple) and got[:2] == ('ctor', 'toml::value::Value::' + variant) and len(got) == 3 else None
+                same = inner is not None and type(inner) is type(v) and (bits(inner) == bits(v) if isinstance(v, float) else inner == v)
+                if not same:
+                    bad.append(f'{name} is stored as {inner!r}' if inner is not None else f'{name} gives {r!r}')
+        except Unanalysable as e:
+            rep.incomplete(R, meth, f'cannot evaluate: {e}', facts.loc(b))
+            continue
+        rep.check(R, meth, not bad, f'{len(samples)} values stored unchanged in Value::{variant}', f'`ValueVisitor::{meth}` alters what it was handed: {"; ".join(bad[:3])} '
+                  f'(the decoded toml::Value differs from what the document says)', facts.loc(b))
+
+
 def rules(rep, facts):
     feats = set(facts.crates.get('toml_edit', {}).get('features', []))
     if 'toml_edit' not in facts.crates or 'parse' not in feats:
@@ -516,6 +555,13 @@ def rules(rep, facts):
         r8_serde_table(rep, facts)
     r9_wiring(rep, g, facts)
     r9b_offset_values(rep, g, facts)
+    if 'toml' in facts.crates and facts.has_body("<<toml::value::Value as serde::de::Deserialize<'de>>::deserialize::ValueVisitor as serde::de::Visitor<'de>>::visit_f64"):
+        r10_visitor_identity(rep, facts)
+    if 'toml_datetime' in facts.crates:
+        # the serde route hands every date-time over as text and reads it back with Datetime::from_str: what that parser returns is what is decoded
+        from .rules_c12 import r4_truncation
+        r4_truncation(rep, facts)
+        rep.relabel('C12/R4', 'C02/R11', 'date-times keep every field across the serde bridge (text form re-read by the standalone parser): ')
 
 
 def run(tier):
